@@ -72,9 +72,62 @@ Fixpoint parts_clean (l : list part) : Prop :=
   | PPh n :: r => name_ok n /\ parts_clean r
   end.
 
-(* placeholders carrying one name stand for one node *)
+(* a node with every position erased: what is left is the code *)
+Fixpoint pstrip (n : node) : node :=
+  match n with
+  | NNull _ => NNull 0
+  | NBool _ x => NBool 0 x
+  | NInt _ z => NInt 0 z
+  | NFloat _ f => NFloat 0 f
+  | NString _ q v => NString 0 q v
+  | NGlobal _ name v => NGlobal 0 name v
+  | NFunc _ name args => NFunc 0 name (map pstrip args)
+  | NListLit _ items => NListLit 0 (map pstrip items)
+  | NMapLit _ items => NMapLit 0 (map (fun kv => (fst kv, pstrip (snd kv))) items)
+  | NDataRef _ key acc => NDataRef 0 key (map pstrip acc)
+  | NAccIndex _ ns i => NAccIndex 0 ns i
+  | NAccKey _ ns k => NAccKey 0 ns k
+  | NAccExpr _ ns a => NAccExpr 0 ns (pstrip a)
+  | NNot _ a => NNot 0 (pstrip a)
+  | NNeg _ a => NNeg 0 (pstrip a)
+  | NBin op _ a1 a2 => NBin op 0 (pstrip a1) (pstrip a2)
+  | NTern _ c x y => NTern 0 (pstrip c) (pstrip x) (pstrip y)
+  | NList _ nodes => NList 0 (map pstrip nodes)
+  | NRawText _ t => NRawText 0 t
+  | NPrint _ arg dirs => NPrint 0 (pstrip arg) (map pstrip dirs)
+  | NDirective _ name args => NDirective 0 name (map pstrip args)
+  | NCss _ e suffix => NCss 0 (option_map pstrip e) suffix
+  | NLog _ body => NLog 0 (pstrip body)
+  | NDebugger _ => NDebugger 0
+  | NIf _ conds => NIf 0 (map pstrip conds)
+  | NIfCond _ cond body => NIfCond 0 (option_map pstrip cond) (pstrip body)
+  | NFor _ var lst body ifempty => NFor 0 var (pstrip lst) (pstrip body) (option_map pstrip ifempty)
+  | NSwitch _ v cases => NSwitch 0 (pstrip v) (map pstrip cases)
+  | NSwitchCase _ values body => NSwitchCase 0 (map pstrip values) (pstrip body)
+  | NCall _ name alldata dat params => NCall 0 name alldata (option_map pstrip dat) (map pstrip params)
+  | NParamValue _ k v => NParamValue 0 k (pstrip v)
+  | NParamContent _ k c => NParamContent 0 k (pstrip c)
+  | NLetValue _ name e => NLetValue 0 name (pstrip e)
+  | NLetContent _ name body => NLetContent 0 name (pstrip body)
+  | NMsg _ id mn ds body => NMsg 0 id mn ds (map pstrip body)
+  | NMsgPlaceholder _ name body => NMsgPlaceholder 0 name (pstrip body)
+  | NMsgHtmlTag _ t => NMsgHtmlTag 0 t
+  | NMsgPlural _ vn v cases dflt => NMsgPlural 0 vn (pstrip v) (map pstrip cases) (map pstrip dflt)
+  | NMsgPluralCase _ v body => NMsgPluralCase 0 v (map pstrip body)
+  | NTemplate _ name body ae pv => NTemplate 0 name (pstrip body) ae pv
+  | NNamespace _ name ae => NNamespace 0 name ae
+  | NSoyDoc _ params => NSoyDoc 0 (map pstrip params)
+  | NSoyDocParam _ name opt => NSoyDocParam 0 name opt
+  | NHeaderParam _ opt name typ dflt => NHeaderParam 0 opt name typ (option_map pstrip dflt)
+  | NLiteral _ body => NLiteral 0 body
+  | NIdent _ i => NIdent 0 i
+  | NOther _ what => NOther 0 what
+  end.
+
+(* placeholders carrying one name stand for one piece of code: the same node up
+   to positions (two occurrences of {$name} are two nodes at two positions) *)
 Definition coherent (phs : list node) : Prop :=
-  forall p1 p2 n b1 b2, In (NMsgPlaceholder p1 n b1) phs -> In (NMsgPlaceholder p2 n b2) phs -> b1 = b2.
+  forall p1 p2 n b1 b2, In (NMsgPlaceholder p1 n b1) phs -> In (NMsgPlaceholder p2 n b2) phs -> pstrip b1 = pstrip b2.
 
 (* the first placeholder of a list with a given name *)
 Fixpoint find_ph (l : list node) (name : bstr) : option node :=
@@ -87,3 +140,22 @@ Fixpoint find_ph (l : list node) (name : bstr) : option node :=
 (* every item of the translation is text or one of the given placeholder nodes *)
 Definition items_from (phs : list node) (tr : list titem) : Prop :=
   forall p n b, In (TPh p n b) tr -> In (NMsgPlaceholder p n b) phs.
+
+(* the node a name is resolved to at render time: the first placeholder carrying it *)
+Definition resolve (phs : list node) (i : titem) : titem :=
+  match i with
+  | TText t => TText t
+  | TPh p n b => match find_ph phs n with Some b' => TPh p n b' | None => TPh p n b end
+  end.
+
+(* every placeholder name of the translation is the name of a placeholder *)
+Definition items_named (phs : list node) (tr : list titem) : Prop :=
+  forall p n b, In (TPh p n b) tr -> exists p' b', In (NMsgPlaceholder p' n b') phs.
+
+(* item lists that say the same: same texts, same names, same code at every placeholder *)
+Definition same_items (tr1 tr2 : list titem) : Prop :=
+  Forall2 (fun i j => match i, j with
+                      | TText s, TText t => s = t
+                      | TPh _ m b1, TPh _ n b2 => m = n /\ pstrip b1 = pstrip b2
+                      | _, _ => False
+                      end) tr1 tr2.
